@@ -104,6 +104,16 @@ def textHandler : Handler := fun _ impl =>
   if w == "CRASH" || w == "HANG" || w == "HARNESS-PANIC" then ("-", judgeOutcome false impl)
   else
     match impl.splitOn " ; " with
+    | [l, host] =>
+      -- a loader case: consult / Exec over files in memory
+      let (lw, lr) := headWord l
+      let (hw, hr) := headWord host
+      if lw != "l" || hw != "host" then ("-", "FAIL unexpected harness output")
+      else
+        let vl := judgeOutcome false lr
+        ("-", if vl != "ok" then "FAIL loading: " ++ (vl.drop 5).toString
+              else if hr != "ok" then "FAIL the HOST goroutine panicked using the result (no recover protects the caller): " ++ hr
+              else "ok")
     | [q, e, r, host] =>
       let (qw, qr) := headWord q
       let (ew, er) := headWord e
